@@ -170,11 +170,10 @@ func genWS(r *rand.Rand, maxFrames int) string {
 	if cs {
 		body = r.Intn(8) > 0
 	}
-	codec := "j"
-	if r.Intn(5) == 0 {
-		codec = "b"
-	}
-	expectBinary := codec == "b"
+	// request codec × response codec, chosen through Content-Type × Accept; a single letter sends
+	// no Accept header (response falls back to the request marshaler)
+	codec := common.Pick(r, []string{"j", "j", "j", "b", "jj", "bb", "jb", "jb", "bj", "bj"})
+	expectBinary := codec[0] == 'b'
 	nf := r.Intn(maxFrames + 1)
 	var frames []string
 	good, terminal, started := 0, false, cs || !body
